@@ -6,6 +6,7 @@ package world
 import (
 	"fmt"
 	"io/fs"
+	"math"
 	"os"
 	"sort"
 	"strings"
@@ -67,8 +68,9 @@ func New(t *kernel.Thread, kind string, umask int) (*World, error) {
 	w.E = fsx.NewRunner(v)
 	w.K = fsx.NewRunner(fsx.OSFS{})
 	if kind == "OrefaFS" {
-		w.NoOwner = true
-		w.E.NoOwner, w.K.NoOwner = true, true
+		// no identity manager, but nodes carry the numeric owner Chown gives them, and the
+		// administrator's own id (math.MaxInt) otherwise: that one is read as the kernel's 0
+		w.E.OwnerZero = math.MaxInt
 		w.Roots = []string{"/a", "/b", "/c", "/home", "/root", "/tmp", "/w"}
 	} else {
 		w.Roots = []string{"/"}
@@ -129,7 +131,7 @@ func (w *World) SnapE() fsx.Snap {
 	if w.Dead {
 		return fsx.Snap{{Path: "/", Err: "HANG"}}
 	}
-	s := fsx.Snapshot(w.V, fsx.SnapOpts{Roots: w.Roots, NoOwner: w.NoOwner}) // guarded there
+	s := fsx.Snapshot(w.V, fsx.SnapOpts{Roots: w.Roots, NoOwner: w.NoOwner, OwnerZero: w.E.OwnerZero}) // guarded there
 	if len(s) == 1 && s[0].Err == "HANG" {
 		w.Dead = true
 	}
